@@ -376,7 +376,7 @@ class FlatLinearOperator(ScipyLinearOperator):
         if mat.rank != 2:
             raise ValueError('Works only for square matrices')
         mat.legs[1].test_contractible(mat.legs[0])
-        return cls(mat.matvec, mat.legs[0], mat.dtype, charge_sector, compact_flat=compact_flat)
+        return cls(mat.matvec, mat.legs[0], mat.dtype, charge_sector, mat.get_leg_labels()[0], compact_flat)
 
     @classmethod
     def from_guess_with_pipe(cls, npc_matvec, v0_guess, labels_split=None, dtype=None, compact_flat=True):
